@@ -484,6 +484,13 @@ def check(ctx):
     check_modifiers(ctx)
     check_move(ctx)
     check_move_is_never_switched_off(ctx)
+    # Round 8: a field handed out by a selector is configured (class-wide align included) the same way
+    # on both sides (C08-ref)
+    from .c08 import check_ref
+    try:
+        check_ref(ctx, ctx.repo.cls('Ref'))
+    except Undecided as e:
+        ctx.undecided('C08-ref', ('bisturi/field.py', 'Ref'), 'Ref', str(e), 0)
     check_sequence_pads(ctx)
     layout = D.fields_tuple_layout(ctx.repo)
     for d in D.get_drivers(ctx.repo):
